@@ -286,6 +286,31 @@ theorem bisect_spec (M : ℝ → W × ℝ × ℝ) (fin : ℝ → Bool) (dyn : Bo
       · obtain ⟨a1, a2, a3, a4⟩ := ih _ _ hm1
         exact ⟨a1, le_trans a2 hm2, a3, a4⟩
 
+/-- whatever the bracket, the weights / ESS the bisection hands back are the oracle's values at the β it returns -/
+theorem bisect_aux (M : ℝ → W × ℝ × ℝ) (fin : ℝ → Bool) (dyn : Bool) (target tolE tolB : ℝ) :
+    ∀ (n : Nat) (bmin bmax : ℝ),
+      (bisect M fin dyn target tolE tolB n bmin bmax).w
+        = (M (bisect M fin dyn target tolE tolB n bmin bmax).beta).1 ∧
+      (bisect M fin dyn target tolE tolB n bmin bmax).ess
+        = (M (bisect M fin dyn target tolE tolB n bmin bmax).beta).2.1 := by
+  intro n
+  induction n with
+  | zero =>
+    intro bmin bmax
+    rcases bisect_unfold M fin dyn target tolE tolB 0 bmin bmax with ⟨t, _, e⟩ | ⟨_, _, e⟩ | ⟨k, _, _, hk, _⟩
+    · rw [e]; exact ⟨rfl, rfl⟩
+    · rw [e]; exact ⟨rfl, rfl⟩
+    · omega
+  | succ n ih =>
+    intro bmin bmax
+    rcases bisect_unfold M fin dyn target tolE tolB (n+1) bmin bmax with
+      ⟨t, _, e⟩ | ⟨hk, _, _⟩ | ⟨k, lo, hi, hk, _, _, e⟩
+    · rw [e]; exact ⟨rfl, rfl⟩
+    · omega
+    · have hk' : k = n := by omega
+      subst hk'
+      rw [e]; exact ih lo hi
+
 /-- with `β_max − β_min < 2^n · BETA_TOLERANCE` the fuel `n` is not what stops the bisection, and it makes at
     most `n` halvings (the `beta_converged` test fires at the latest when the width drops below the tolerance) -/
 theorem bisect_fuel (M : ℝ → W × ℝ × ℝ) (fin : ℝ → Bool) (dyn : Bool) (target tolE tolB : ℝ) :
@@ -464,37 +489,34 @@ theorem coherent_finalize (M : ℝ → W × ℝ × ℝ) (Z : ℝ → ℝ) (β : 
   ⟨rfl, rfl, rfl, rfl⟩
 
 theorem runEss_coherent (M : ℝ → W × ℝ × ℝ) (Z : ℝ → ℝ) (fin : ℝ → Bool) (target tolE tolB : ℝ) (fuel : Nat)
-    (prev : ℝ) (h1 : prev ≤ 1) : Coherent M Z (runEss M Z fin target tolE tolB fuel prev) := by
-  obtain ⟨u1, _⟩ := C05_upper_in_range M target tolB fuel prev h1
+    (prev : ℝ) : Coherent M Z (runEss M Z fin target tolE tolB fuel prev) := by
   rcases runEss_cases M Z fin target tolE tolB fuel prev with ⟨_, e⟩ | ⟨_, _, e⟩ | ⟨_, _, e⟩
   · rw [e]; exact coherent_finalize M Z _ _ _ _
   · rw [e]; exact coherent_finalize M Z _ _ _ _
-  · rw [e]; obtain ⟨_, _, b3, b4⟩ := bisect_spec M fin false target tolE tolB fuel prev _ u1
+  · rw [e]; obtain ⟨b3, b4⟩ := bisect_aux M fin false target tolE tolB fuel prev _
     rw [b3, b4]; exact coherent_finalize M Z _ _ _ _
 
 theorem runDyn_coherent (M : ℝ → W × ℝ × ℝ) (Z : ℝ → ℝ) (fin : ℝ → Bool) (target vv tolE tolB : ℝ)
-    (fuel : Nat) (prev : ℝ) (h1 : prev ≤ 1) : Coherent M Z (runDyn M Z fin target vv tolE tolB fuel prev) := by
-  obtain ⟨u1, _⟩ := C05_upper_in_range M target tolB fuel prev h1
+    (fuel : Nat) (prev : ℝ) : Coherent M Z (runDyn M Z fin target vv tolE tolB fuel prev) := by
   rcases runDyn_cases M Z fin target vv tolE tolB fuel prev with
     ⟨_, e⟩ | ⟨_, _, e⟩ | ⟨_, _, _, e⟩ | ⟨_, _, _, e⟩
   · rw [e]; exact coherent_finalize M Z _ _ _ _
   · rw [e]; exact coherent_finalize M Z _ _ _ _
   · rw [e]; exact coherent_finalize M Z _ _ _ _
-  · rw [e]; obtain ⟨_, _, b3, b4⟩ := bisect_spec M fin true vv tolE tolB fuel prev _ u1
+  · rw [e]; obtain ⟨b3, b4⟩ := bisect_aux M fin true vv tolE tolB fuel prev _
     rw [b3, b4]; exact coherent_finalize M Z _ _ _ _
 
 /-- In all 7 branches of `run` (3 in ESS mode, 4 in volume-variation mode) the returned weights, the recorded
     ESS and the recorded logZ are `(M β).1`, `(M β).2.1` and `Z β` for the SAME β that is written to state
-    (and `compute_logw_and_logz` is called by `run` exactly once, at that β). -/
-theorem C05_same_temperature (c : Cfg ℝ) (M : ℝ → W × ℝ × ℝ) (Z : ℝ → ℝ) (fin : ℝ → Bool) (prev : ℝ)
-    (h1 : prev ≤ 1) :
+    (and `compute_logw_and_logz` is called by `run` exactly once, at that β) — for every oracle and every β_prev. -/
+theorem C05_same_temperature (c : Cfg ℝ) (M : ℝ → W × ℝ × ℝ) (Z : ℝ → ℝ) (fin : ℝ → Bool) (prev : ℝ) :
     (run c false M Z fin prev).weightsTag = WTag.of (M (run c false M Z fin prev).beta).1 ∧
     (run c false M Z fin prev).ess = (M (run c false M Z fin prev).beta).2.1 ∧
     (run c false M Z fin prev).logz = Z (run c false M Z fin prev).beta ∧
     (run c false M Z fin prev).zcalls = [(run c false M Z fin prev).beta] := by
   cases hv : c.vv with
-  | none => simp only [run, hv, Bool.false_eq_true, if_false]; exact runEss_coherent M Z fin _ _ _ _ prev h1
-  | some v => simp only [run, hv, Bool.false_eq_true, if_false]; exact runDyn_coherent M Z fin _ _ _ _ _ prev h1
+  | none => simp only [run, hv, Bool.false_eq_true, if_false]; exact runEss_coherent M Z fin _ _ _ _ prev
+  | some v => simp only [run, hv, Bool.false_eq_true, if_false]; exact runDyn_coherent M Z fin _ _ _ _ _ prev
 
 /-- the first iteration (empty history): β = 0, logZ = 0, ESS = ess_ratio · n_particles, uniform weights of
     length n_particles, and no oracle is consulted -/
@@ -696,7 +718,7 @@ example : (runDyn Mex id (fun _ => true) 40 (3/10) (1/100) (1/4) 3 0).beta = 5/1
   norm_num [runDyn, bisect, bisStop, bisVal, bisRaise, eqv, finalize, upperLimit, upLoop, Mex, mid, ScReal.abs_def]
 -- the same-temperature statement on that run: recorded ESS is ESS(5/16) = 68.75, logZ is Z(5/16)
 example : (run ⟨2, 20, some (3/10), 1/100, 1/4, 3⟩ false Mex id (fun _ => true) 0).ess = 100 * (1 - 5/16) := by
-  have h := (C05_same_temperature ⟨2, 20, some (3/10), 1/100, 1/4, 3⟩ Mex id (fun _ => true) 0 (by norm_num)).2.1
+  have h := (C05_same_temperature ⟨2, 20, some (3/10), 1/100, 1/4, 3⟩ Mex id (fun _ => true) 0).2.1
   rw [h]
   norm_num [run, Cfg.target, runDyn, bisect, bisStop, bisVal, bisRaise, eqv, finalize, upperLimit, upLoop, Mex,
     mid, ScReal.abs_def]
